@@ -121,7 +121,20 @@ func (w *World) GenVC(fn *ssa.Function, ct *Contract, opts ...func(*Engine)) (re
 				Detail: "case is reachable: " + cl.Text})
 		}
 	}
+	// string parameters: which literal (if any) the model picks
+	var strSel []NamedTerm
+	for i, p := range fn.Params {
+		if isString(p.Type()) {
+			for _, lit := range e.strLitOrder {
+				strSel = append(strSel, NamedTerm{Name: p.Name() + "==" + lit, T: e.C.Eq(args[i].Terms[0], e.strLits[lit])})
+			}
+		}
+	}
+	res.Params = append(res.Params, strSel...)
 	for _, o := range e.Obls {
+		if o.Class == "post" {
+			o.Inputs = append(o.Inputs, strSel...)
+		}
 		if o.Inputs == nil {
 			o.Inputs = res.Params
 		}
